@@ -118,7 +118,11 @@ def gen_case(rng, tier, g):
             else rng.choice(STREAM_NAMES)
     rec = RECIPES[name]
     stack = [[name, rng.randrange(len(rec.variants))]]
-    if rec.stream and not rec.items and not rec.multi and rng.random() < 0.3:
+    if rec.stream and not rec.items and not rec.multi \
+            and rec.profile != 'biggroups' and rng.random() < 0.3:
+        # (not on the big-groups source: its rows depend on its length, so
+        # the two lengths of a case do not share a prefix a filter could be
+        # compared on)
         for _ in range(rng.choice([1, 1, 2])):
             n2 = rng.choice(STACKABLE)
             stack.append([n2, rng.randrange(len(RECIPES[n2].variants))])
@@ -480,7 +484,10 @@ def _one_length(e, case, total, log, sb, poison):
             pulls[tid] = [w.s[i].pulls('data', tid) for i in range(rec.nsrc)]
             log.add('pulls', tid, res[tid], pulls[tid])
         if kind == 'filter' and not any(n in END_SENSITIVE for n, _ in stack) \
-                and _header_cost(stack) < 10 ** 9:
+                and _header_cost(stack) < 10 ** 9 \
+                and rec.profile != 'biggroups':
+            # (the big-groups source is not periodic: its key changes four
+            # times over the whole length)
             # A filter-like pipeline has no fixed rows-in per row-out, but
             # the sources repeat with period P (the prefix rows, cycled; the
             # sorted profile repeats its pattern every 12 rows): a consumer
